@@ -41,6 +41,20 @@ TFinish == /\ IsEvent("finish")
            /\ UNCHANGED target /\ SameCaps
            /\ CountersOK(Ev)
 
+\* a burst: several Evict calls released together by a barrier, the API answering at once; the interleaving is whatever
+\* the Go scheduler made of it and only the outcome at quiescence is recorded (calls[i] = [node, ns, ok]).  Every
+\* interleaving must respect the caps, so any outcome that breaks Caps / Counters is a violation (a stress driver can
+\* miss a race, it cannot raise a false alarm)
+OkAt(calls, f, x) == Cardinality({i \in DOMAIN calls : calls[i].ok /\ calls[i][f] = x})
+TBurst == /\ IsEvent("burst")
+          /\ \A c \in Callers : pc[c] # "calling"
+          /\ IF dry THEN UNCHANGED <<okN, okNs, okT>>
+                    ELSE /\ okN'  = [n \in Nodes |-> okN[n] + OkAt(Ev.calls, "node", n)]
+                         /\ okNs' = [x \in Namespaces |-> okNs[x] + OkAt(Ev.calls, "ns", x)]
+                         /\ okT'  = okT + Cardinality({i \in DOMAIN Ev.calls : Ev.calls[i].ok})
+          /\ UNCHANGED <<target, pc>> /\ SameCaps
+          /\ CountersOK(Ev)
+
 TraceInit == \E i \in Starts :
                 /\ TraceStart(i)
                 /\ capNode = Trace[i].capNode /\ capNs = Trace[i].capNs /\ capTotal = Trace[i].capTotal
@@ -49,6 +63,6 @@ TraceInit == \E i \in Starts :
                 /\ pc = [c \in Callers |-> "idle"]
                 /\ okN = [n \in Nodes |-> 0] /\ okNs = [s \in Namespaces |-> 0] /\ okT = 0
                 /\ cntN = [n \in Nodes |-> 0] /\ cntNs = [s \in Namespaces |-> 0] /\ cntT = 0
-TraceNext == TStart \/ TFinish \/ (SegDone /\ UNCHANGED vars /\ UNCHANGED dry)
+TraceNext == TStart \/ TFinish \/ TBurst \/ (SegDone /\ UNCHANGED vars /\ UNCHANGED dry)
 TraceSpec == TraceInit /\ [][TraceNext]_<<vars, dry, tvars>>
 =============================================================================
